@@ -42,7 +42,7 @@ var checks = map[string]*checkDef{
 	"C19": {
 		property: "C19", level: "fault_enumeration",
 		plan: []planItem{
-			{workload: "C19", variant: "plain", quick: 1400, thorough: 60000},
+			{workload: "C19", variant: "plain", quick: 1400, thorough: 200000},
 			{workload: "C19", variant: "purego", quick: 210, thorough: 1400},
 			{workload: "C19", variant: "force32bit", quick: 210, thorough: 1400},
 			{workload: "C19", variant: "noavx2", quick: 140, thorough: 1400},
@@ -56,7 +56,7 @@ var checks = map[string]*checkDef{
 	"C09": {
 		property: "C09", level: "exploration",
 		plan: []planItem{
-			{workload: "C09", variant: "plain", quick: 12000, thorough: 300000},
+			{workload: "C09", variant: "plain", quick: 12000, thorough: 1000000},
 			{workload: "C09C", variant: "instr", quick: 20000, thorough: 1000000},
 			{workload: "C09", variant: "noavx2", quick: 800, thorough: 15000},
 			{workload: "C09", variant: "purego", quick: 800, thorough: 15000},
@@ -71,7 +71,7 @@ var checks = map[string]*checkDef{
 	"C02": {
 		property: "C02", level: "exploration",
 		plan: []planItem{
-			{workload: "C02", variant: "plain", quick: 16000, thorough: 600000},
+			{workload: "C02", variant: "plain", quick: 16000, thorough: 2000000},
 			{workload: "C02F", variant: "plain", quick: 160, thorough: 3200},
 			{workload: "C02C", variant: "instrw", quick: 6000, thorough: 300000},
 			{workload: "C02", variant: "noavx2", quick: 1600, thorough: 40000},
@@ -86,7 +86,7 @@ var checks = map[string]*checkDef{
 	"C12": {
 		property: "C12", level: "exploration",
 		plan: []planItem{
-			{workload: "C12", variant: "plain", quick: 8000, thorough: 300000},
+			{workload: "C12", variant: "plain", quick: 8000, thorough: 1000000},
 			{workload: "C12C", variant: "instrw", quick: 3000, thorough: 150000},
 			{workload: "C12", variant: "purego", quick: 800, thorough: 30000},
 			{workload: "C12", variant: "noavx2", quick: 800, thorough: 30000},
@@ -101,7 +101,7 @@ var checks = map[string]*checkDef{
 	"C15": {
 		property: "C15", level: "exploration",
 		plan: []planItem{
-			{workload: "C15", variant: "plain", quick: 4000, thorough: 150000},
+			{workload: "C15", variant: "plain", quick: 4000, thorough: 500000},
 			{workload: "C15C", variant: "instrw", quick: 2000, thorough: 100000},
 			{workload: "C15", variant: "purego", quick: 480, thorough: 15000},
 			{workload: "C15", variant: "noavx2", quick: 480, thorough: 15000},
